@@ -89,6 +89,16 @@ CLAIMS = {
              "keyword-only, positional, method and two-marker layouts and T, Optional[T], T | None, Union and (nested) string forward-reference "
              "annotations; results, object identity, side effects and pass-through arguments must match the explicit lookup.",
         design_ref="DESIGN.md §5 C19, §4.1", note="Trusted: TLC, the replay driver, the fixture module without `from __future__ import annotations`. Signature shapes are cycled, not enumerated per state."),
+    "C01": dict(
+        technique="TLA+ spec Teardown.tla composed with the monitor P_C01: TLC enumerates all programs of the bounded family and proves the "
+                  "design satisfies the monitor (plus AllRan and termination under fairness); each program is executed on asyncio/trio and the "
+                  "recorded trace is evaluated by TLC against the same monitor (Trace_C01)",
+        text="Model checking of the teardown loop (pop / callback finishes, registration during teardown, cancellation while an async callback "
+             "is suspended) over every program of <=2 callbacks of all kinds and routes and 3-callback programs of a thinner alphabet, all block "
+             "endings, root and nested contexts; every program is then run against the real Context and the monitor checks exactly-once, LIFO, "
+             "no overlap, the argument of pass_exception callbacks, that raising callbacks never stop the rest, the single exception group, "
+             "closed afterwards and the block's own outcome.",
+        design_ref="DESIGN.md §5 C01, Appendix A.2", note="Trusted: TLC, the gate-driven driver with exact quiescence and virtual time. Cancellation exceptions are exempt from the grouped clause (backends differ); quick runs each program on one backend, alternating."),
 }
 
 PENDING_REASON = "check not built yet in this build session; planned (DESIGN.md §5)"
